@@ -149,7 +149,10 @@ func c16Helpers(c *Ctx) {
 			}
 		}
 	}
-	c.mu.Lock(); sp := c.counts["sid_pairs"]; c.mu.Unlock(); c.Count("calls", sp)
+	c.mu.Lock()
+	sp := c.counts["sid_pairs"]
+	c.mu.Unlock()
+	c.Count("calls", sp)
 	c.Distinct("calls", "SID/roundtrip")
 	c.Note("sid_space_exhaustive", exhaustive)
 	c.Sample(map[string]any{"fn": "SIDBytesToString(SIDBytes(r,a))", "r": 255, "a": 65535, "expect": "S-255-65535"})
